@@ -1200,14 +1200,15 @@ func (e *Exec) indexAddr(fr *frame, x *ssa.IndexAddr) Value {
 			e.unsupported("index into nil slice passed bounds check")
 		}
 		abs := e.st.Bin(OpAdd, a.off, idx)
-		return &PtrV{obj: a.obj, path: extendPath(a.path, e.idxElemT(abs, isByteSlice(x.X.Type())))}
+		_, smt := intElemWidth(x.X.Type())
+		return &PtrV{obj: a.obj, path: extendPath(a.path, e.idxElemT(abs, smt))}
 	}
 	e.unsupported(fmt.Sprintf("indexaddr on %T", c))
 	return nil
 }
 
 func (e *Exec) idxElem(idx *Term, arrT types.Type) pathElem {
-	_, isb := isByteArray(arrT)
+	_, isb := intElemWidth(arrT)
 	return e.idxElemT(idx, isb)
 }
 
@@ -1276,9 +1277,9 @@ func (e *Exec) sliceOp(fr *frame, x *ssa.Slice) Value {
 func (e *Exec) makeSlice(fr *frame, x *ssa.MakeSlice) Value {
 	n := e.toIdx(e.get(fr, x.Len).(*Term), x.Len.Type())
 	cp := e.toIdx(e.get(fr, x.Cap).(*Term), x.Cap.Type())
-	if isByteSlice(x.Type()) {
+	if ew, ok := intElemWidth(x.Type()); ok {
 		e.mustHold(e.st.Cmp(OpSle, e.c64(0), n), "makeslice: len out of range", fr.fn.Name())
-		o := e.newObj(&BytesV{arr: e.st.ConstArr(bytesSort, 0), n: -1}, "make([]byte)")
+		o := e.newObj(&BytesV{arr: e.st.ConstArr(ArrSort(64, ew), 0), n: -1}, "make([]int)")
 		return &SliceV{obj: o, off: e.c64(0), len: n, cap: cp}
 	}
 	if n.op != OpConst || cp.op != OpConst {
@@ -1488,7 +1489,7 @@ func (e *Exec) builtin(fr *frame, name string, c *ssa.CallCommon, args []Value) 
 			}
 			if bb, ok := e.load0(&PtrV{obj: x.obj, path: x.path}).(*BytesV); ok {
 				for i := 0; i < int(x.len.val); i++ {
-					bb.arr = e.st.StoreArr(bb.arr, e.c64(int64(int(x.off.val)+i)), e.st.Const(8, 0))
+					bb.arr = e.st.StoreArr(bb.arr, e.c64(int64(int(x.off.val)+i)), e.st.Const(arrElem(bb.arr.w), 0))
 				}
 				return nil
 			}
@@ -1565,7 +1566,7 @@ func (e *Exec) copyBuiltin(dstV, srcV Value) Value {
 // exactly the needed size).
 func (e *Exec) appendBuiltin(fr *frame, c *ssa.CallCommon, args []Value) Value {
 	dst := args[0].(*SliceV)
-	isBytes := isByteSlice(c.Args[0].Type())
+	ew, isBytes := intElemWidth(c.Args[0].Type())
 	var srcLen *Term
 	var src *SliceV
 	var srcStr *StringV
@@ -1592,7 +1593,7 @@ func (e *Exec) appendBuiltin(fr *frame, c *ssa.CallCommon, args []Value) Value {
 	if n+k > cp || dst.obj == nil {
 		// grow: fresh backing store, old elements copied
 		if isBytes {
-			arr := e.st.ConstArr(bytesSort, 0)
+			arr := e.st.ConstArr(ArrSort(64, ew), 0)
 			if dst.obj != nil {
 				old := e.sliceBytes(dst)
 				for i := 0; i < n; i++ {
